@@ -122,6 +122,12 @@ func runC15(c *CaseCtx) {
 					run.M = m0
 					run.FaultSinceOpen = false
 					c.Stat("transactions_stopped_by_injected_write_error", 1)
+					if r.Intn(3) == 0 && run.Files() >= 2 {
+						// Merge while the records of the failed commit are the newest ones for their keys
+						if !doMerge("right after a failed commit") {
+							return false
+						}
+					}
 				} else if inj.fired != nil && out.Err == nil {
 					c.Stat("faults_swallowed", 1)
 				}
